@@ -2,7 +2,9 @@
 package c01
 
 import (
+	"bytes"
 	"context"
+	"encoding/binary"
 	"fmt"
 	"os"
 	"path/filepath"
@@ -101,6 +103,23 @@ func readAsApp(n *cluster.Node, cache *simCache, name string, owner uint64) (img
 	cp := cache.pages[name]
 	cache.mu.Unlock()
 	npages := uint32(fi.Size() / int64(ps))
+	// a WAL-mode application takes the size from the wal-index header (sqlite3WalDbsize), the file size only when that is 0
+	if hdr := make([]byte, 20); npages > 0 {
+		if _, err := f.ReadAt(hdr, 0); err == nil && hdr[18] == 2 && hdr[19] == 2 {
+			if cnt, ok := shmPageN(filepath.Join(n.Dir, "dbs", name, "shm")); ok && cnt != 0 && cnt != npages {
+				shmN := cnt
+				defer func() {
+					if img == nil {
+						return
+					}
+					for uint32(len(img.Pages)) < shmN {
+						img.Pages = append(img.Pages, make([]byte, ps)) // short read: zero-filled
+					}
+					img.Pages = img.Pages[:shmN]
+				}()
+			}
+		}
+	}
 	for p := uint32(1); p <= npages; p++ {
 		cache.mu.Lock()
 		b, hit := cp[p]
@@ -117,6 +136,21 @@ func readAsApp(n *cluster.Node, cache *simCache, name string, owner uint64) (img
 		img.Pages = append(img.Pages, b)
 	}
 	return img, uint64(pos.TXID), uint64(pos.PostApplyChecksum), true
+}
+
+// shmPageN reads nPage from a wal-index header as walIndexTryHdr accepts it: two equal copies, isInit, empty WAL.
+func shmPageN(path string) (uint32, bool) {
+	b, err := os.ReadFile(path)
+	if err != nil || len(b) < 96 {
+		return 0, false
+	}
+	if !bytes.Equal(b[0:48], b[48:96]) || b[12] != 1 {
+		return 0, false
+	}
+	if mx := binary.LittleEndian.Uint32(b[16:]); mx != 0 {
+		return 0, false
+	}
+	return binary.LittleEndian.Uint32(b[20:]), true
 }
 
 type posKey struct{ txid, chk uint64 }
